@@ -2,7 +2,7 @@
    Model: Tls/Handshake.v (Finished exchange with adversary-chosen received values).
    The run-time part of the check is fault enumeration on the implementation. *)
 From GmVerif Require Import Base.ListX Base.Bytes Hash.SM3 Tls.Record12 Tls.KeySched
-  Tls.Handshake Tls.HandshakeProofs Tls.HsCodec Tls.HsCodecProofs.
+  Tls.Handshake Tls.HandshakeProofs Tls.HsCodec Tls.HsCodecProofs Tls.HsCodec13 Tls.HsCodec13Proofs.
 Local Open Scope nat_scope.
 
 (* decision rule (no assumption), any hash / Finished function: both sides done => each received
@@ -491,3 +491,168 @@ Theorem C10_codec_altered_handshake_record_detected_finished_partial :
    second_done H F1 b fin1_recv = false \/ first_done H F1 F2 finished_msg a fin2_recv = false.
 Proof. exact altered_handshake_record_detected_finished_partial. Qed.
 Print Assumptions C10_codec_altered_handshake_record_detected_finished_partial.
+
+(* ===== TLS 1.3 message forms (Tls/HsCodec13.v; tls13_server_hello_extensions_get, tls13_record_get_handshake_certificate_verify and
+   tls13_process_client_hello_exts modelled as repaired by f48e1aa / 5c74d17) =====
+   (a) round trip *)
+Theorem C10_codec13_get_set_ee13 :
+  forall (rv : N) (r : list N), set_ee13 rv = SOk r -> get_ee13 r = Some tt /\ length r = 19.
+Proof. exact get_set_ee13. Qed.
+Print Assumptions C10_codec13_get_set_ee13.
+Theorem C10_codec13_get_set_cv13 :
+  forall (rv alg : N) (sg r : list N),
+   set_cv13 rv alg sg = SOk r ->
+   (alg < 65536)%N -> get_cv13 r = Some (alg, sg) /\ length r = 13 + length sg.
+Proof. exact get_set_cv13. Qed.
+Print Assumptions C10_codec13_get_set_cv13.
+Theorem C10_codec13_get_set_cr13 :
+  forall (rv : N) (ctx exts r : list N),
+   set_cr13 rv ctx exts = SOk r ->
+   length ctx < 256 -> get_cr13 r = Some (ctx, exts) /\ length r = 12 + length ctx + length exts.
+Proof. exact get_set_cr13. Qed.
+Print Assumptions C10_codec13_get_set_cr13.
+Theorem C10_codec13_get_set_cert13 :
+  forall (cert_ok : list N -> bool) (rv : N) (ctx : list N) (certs : list (list N)) (r : list N),
+   set_cert13 cert_ok rv ctx certs = SOk r ->
+   forallb cert_ok certs = true ->
+   length ctx < 256 ->
+   get_cert13 r = Some (ctx, cert_entries13 certs) /\
+   length r = 13 + length ctx + 5 * length certs + chain_bytes certs.
+Proof. exact get_set_cert13. Qed.
+Print Assumptions C10_codec13_get_set_cert13.
+Theorem C10_codec13_process_cert_list13_entries :
+  forall (cert_ok : list N -> bool) (certs : list (list N)),
+   forallb cert_ok certs = true ->
+   chain_bytes certs <= max_certs -> process_cert_list13 cert_ok (cert_entries13 certs) = Some certs.
+Proof. exact process_cert_list13_entries. Qed.
+Print Assumptions C10_codec13_process_cert_list13_entries.
+Theorem C10_codec13_get_set_fin13 :
+  forall (rv : N) (vd r : list N),
+   set_fin13 rv (Some vd) = SOk r ->
+   length vd = 32 \/ length vd = 48 -> get_fin13 r = Some vd /\ length r = 9 + length vd.
+Proof. exact get_set_fin13. Qed.
+Print Assumptions C10_codec13_get_set_fin13.
+Theorem C10_codec13_exts_of_bytes :
+  forall xs : list (N * list N), Forall ext_ok xs -> exts_of (exts_bytes xs) = Some xs.
+Proof. exact exts_of_bytes. Qed.
+Print Assumptions C10_codec13_exts_of_bytes.
+Theorem C10_codec13_process_client_hello_exts13_offer :
+  forall (point_ok : list N -> bool) (cap cap' : nat) (pt spt x : list N),
+   client_hello_exts13 cap' pt = Some x ->
+   length pt = 65 ->
+   point_ok pt = true ->
+   79 <= cap ->
+   process_client_hello_exts13 point_ok cap spt x =
+   Some (Some pt, ext_supported_versions_server ++ ext_key_share_server spt).
+Proof. exact process_client_hello_exts13_offer. Qed.
+Print Assumptions C10_codec13_process_client_hello_exts13_offer.
+Theorem C10_codec13_server_hello_exts13_answer :
+  forall (point_ok : list N -> bool) (spt : list N),
+   length spt = 65 ->
+   point_ok spt = true ->
+   server_hello_exts13 point_ok (ext_supported_versions_server ++ ext_key_share_server spt) =
+   Some (Some spt).
+Proof. exact server_hello_exts13_answer. Qed.
+Print Assumptions C10_codec13_server_hello_exts13_answer.
+
+(* (b) capacity: records within 5 + 2^14; the extension lists within the capacity the caller gave -- the server's answer
+   to the ClientHello extensions in particular (tls13_do_accept gives 512 bytes) *)
+Theorem C10_codec13_setters13_within_capacity :
+  forall (cert_ok : list N -> bool) (r : list N),
+   made_by_setter13 cert_ok r ->
+   rec_wf r /\ (N.of_nat (length r) <= 16389)%N /\ rec_type r = 22%N /\ msg_wf (hs_message r).
+Proof. exact setters13_within_capacity. Qed.
+Print Assumptions C10_codec13_setters13_within_capacity.
+Theorem C10_codec13_client_hello_exts13_cap :
+  forall (cap : nat) (pt x : list N),
+   client_hello_exts13 cap pt = Some x -> length x <= cap /\ length x = 33 + length pt.
+Proof. exact client_hello_exts13_cap. Qed.
+Print Assumptions C10_codec13_client_hello_exts13_cap.
+Theorem C10_codec13_process_client_hello_exts13_within_capacity :
+  forall (point_ok : list N -> bool) (cap : nat) (spt l : list N) (cpt : option (list N)) (out : list N),
+   length spt = 65 -> process_client_hello_exts13 point_ok cap spt l = Some (cpt, out) -> length out <= cap.
+Proof. exact process_client_hello_exts13_within_capacity. Qed.
+Print Assumptions C10_codec13_process_client_hello_exts13_within_capacity.
+
+(* (c) strictness: an accepted record is the one encoding of the returned fields (EncryptedExtensions: not so, see
+   ee13_type_and_trailing_bytes_not_checked in Tls/HsCodec13Proofs.v) *)
+Theorem C10_codec13_get_cv13_canonical :
+  forall (r : list N) (alg : N) (sg : list N),
+   rec_wf r ->
+   bytes_ok r ->
+   get_cv13 r = Some (alg, sg) ->
+   r = frame (rec_version r) 15 (e16N alg ++ arr16 sg) /\ set_cv13 (rec_version r) alg sg = SOk r.
+Proof. exact get_cv13_canonical. Qed.
+Print Assumptions C10_codec13_get_cv13_canonical.
+Theorem C10_codec13_get_cr13_canonical :
+  forall r ctx exts : list N,
+   rec_wf r ->
+   bytes_ok r ->
+   get_cr13 r = Some (ctx, exts) ->
+   r = frame (rec_version r) 13 (arr8 ctx ++ arr16 exts) /\ set_cr13 (rec_version r) ctx exts = SOk r.
+Proof. exact get_cr13_canonical. Qed.
+Print Assumptions C10_codec13_get_cr13_canonical.
+Theorem C10_codec13_get_cert13_canonical :
+  forall r ctx ls : list N,
+   rec_wf r ->
+   bytes_ok r ->
+   get_cert13 r = Some (ctx, ls) -> r = frame (rec_version r) 11 (arr8 ctx ++ arr24 ls) /\ ls <> [].
+Proof. exact get_cert13_canonical. Qed.
+Print Assumptions C10_codec13_get_cert13_canonical.
+Theorem C10_codec13_get_fin13_canonical :
+  forall r vd : list N,
+   rec_wf r ->
+   bytes_ok r ->
+   get_fin13 r = Some vd ->
+   r = frame (rec_version r) 20 vd /\
+   set_fin13 (rec_version r) (Some vd) = SOk r /\ (length vd = 32 \/ length vd = 48).
+Proof. exact get_fin13_canonical. Qed.
+Print Assumptions C10_codec13_get_fin13_canonical.
+
+(* (d) injectivity *)
+Theorem C10_codec13_set_cv13_inj :
+  forall (rv rv' a a' : N) (s s' r : list N),
+   set_cv13 rv a s = SOk r ->
+   set_cv13 rv' a' s' = SOk r -> (a < 65536)%N -> (a' < 65536)%N -> a = a' /\ s = s'.
+Proof. exact set_cv13_inj. Qed.
+Print Assumptions C10_codec13_set_cv13_inj.
+Theorem C10_codec13_set_cr13_inj :
+  forall (rv rv' : N) (c c' x x' r : list N),
+   set_cr13 rv c x = SOk r ->
+   set_cr13 rv' c' x' = SOk r -> length c < 256 -> length c' < 256 -> c = c' /\ x = x'.
+Proof. exact set_cr13_inj. Qed.
+Print Assumptions C10_codec13_set_cr13_inj.
+Theorem C10_codec13_set_cert13_inj :
+  forall (cert_ok : list N -> bool) (rv rv' : N) (ctx ctx' : list N) (cs cs' : list (list N)) (r : list N),
+   set_cert13 cert_ok rv ctx cs = SOk r ->
+   set_cert13 cert_ok rv' ctx' cs' = SOk r ->
+   forallb cert_ok cs = true ->
+   forallb cert_ok cs' = true ->
+   length ctx < 256 ->
+   length ctx' < 256 ->
+   chain_bytes cs <= max_certs -> chain_bytes cs' <= max_certs -> ctx = ctx' /\ cs = cs'.
+Proof. exact set_cert13_inj. Qed.
+Print Assumptions C10_codec13_set_cert13_inj.
+Theorem C10_codec13_set_fin13_inj :
+  forall (rv rv' : N) (x y r : list N),
+   set_fin13 rv (Some x) = SOk r -> set_fin13 rv' (Some y) = SOk r -> x = y.
+Proof. exact set_fin13_inj. Qed.
+Print Assumptions C10_codec13_set_fin13_inj.
+Theorem C10_codec13_exts_bytes_inj :
+  forall xs ys : list (N * list N),
+   Forall ext_ok xs -> Forall ext_ok ys -> exts_bytes xs = exts_bytes ys -> xs = ys.
+Proof. exact exts_bytes_inj. Qed.
+Print Assumptions C10_codec13_exts_bytes_inj.
+
+(* TLS 1.2 extension processing (src/tls_ext.c: tls_process_client_hello_exts, tls_process_server_hello_exts) *)
+Theorem C10_codec13_process_client_hello_exts12_within_capacity :
+  forall (cap : nat) (l out : list N), process_client_hello_exts12 cap l = Some out -> length out <= cap.
+Proof. exact process_client_hello_exts12_within_capacity. Qed.
+Print Assumptions C10_codec13_process_client_hello_exts12_within_capacity.
+Theorem C10_codec13_process_server_hello_exts12_answer :
+  forall (cap : nat) (out : list N),
+   process_client_hello_exts12 cap
+     (ext X_ec_point_formats (arr8 [0%N]) ++ ext_supported_groups ++ ext_signature_algorithms) = 
+   Some out -> process_server_hello_exts12 out = Some (Some 0%N, Some curve_sm2, Some sig_sm2sm3).
+Proof. exact process_server_hello_exts12_answer. Qed.
+Print Assumptions C10_codec13_process_server_hello_exts12_answer.
